@@ -115,7 +115,7 @@ def random_scenario(rng: random.Random, n_callers: int, rich: bool = True) -> di
     if rng.random() < 0.5:
         for _ in range(rng.randint(1, 3)):
             events.append({"t": tt(), "ev": "foreign", "of": rng.randint(1, n_callers),
-                           "what": rng.choice(["echo", "reply", "otherzone", "echo_othergwy", "reply_otherdst", "noise"])})
+                           "what": rng.choice(["echo", "reply", "otherzone", "echo_othergwy", "reply_otherdst", "noise", "null_otherctl"])})
     for e in events:
         e["hops"] = rng.choice([0, 0, 1, 2, 3, 4])
     events.sort(key=lambda e: e["t"])
@@ -161,4 +161,18 @@ def repeat_scenarios(rich: bool) -> list[dict]:
                     b["nr"] = nr
                     c = caller(3, 11.0, kind, 3, 0, mr, 20.0, None, lost)
                     out.append({"mode": mode, "callers": [a, b, c], "events": []})
+    return out
+
+
+def foreign_null_scenarios(rich: bool) -> list[dict]:
+    """A fault-log request whose reply is awaited, with another controller's null-entry reply on the air before the
+    genuine one (between echo and reply, before the echo, after a retransmission)."""
+    out = []
+    for mode in (None, False):
+        for wfr in (True, None):
+            for t_null in ((0.005, 0.05, 0.3) if rich else (0.05,)):
+                for mr in (0, 2):
+                    c = caller(1, 0.0, "LOG", 3, 0, mr, 20.0, wfr, [{"echo": 0.01, "reply": 0.4}])
+                    out.append({"mode": mode, "callers": [c],
+                                "events": [{"t": t_null, "ev": "foreign", "of": 1, "what": "null_otherctl", "hops": 0}]})
     return out
